@@ -19,7 +19,8 @@ EXPLANATION = (
     "of _commit_file_ops must not write or delete in place; every delete-capable sink of the package is censused "
     "against the sanctioned owners; current-snapshot repointing must follow snapshot_log recency, never max(id)."
     " Also: (R5) timestamp lookup resolves ties by commit order; (R6-R8) the collector's reachability / no-skip / delete-guard rules (collections must leave every retained snapshot readable)."
-    ' (R9) nothing may raise after the commit point (shared with C04.R2): a raise there runs the deleting rollback over the files of a snapshot that IS committed.')
+    ' (R9) nothing may raise after the commit point (shared with C04.R2): a raise there runs the deleting rollback over the files of a snapshot that IS committed.'
+    ' (R10) every producer of a snapshot_log value keeps commit order on the sequence spine (no sorted / reversed / set / insert).')
 NOT_DECIDED = ("content equality of re-read snapshots over histories; timestamp lookup under non-monotonic "
                "clocks (depends on run-time values)")
 
